@@ -652,7 +652,8 @@ def numericalJacobian(function_handle, x_init, delta):
         x0m[i] = x0m[i] - delta
         #Conversion paused here. continue evalutation
         dfdx = np.vstack((dfdx, ndfdx(x0p, x0m)))
-    dfdx=dfdx.T
+    #A single input gives a 1-D difference quotient: keep one column per input
+    dfdx=np.atleast_2d(dfdx).T
 
     # Reset State If Necessary
     function_handle(x_init)
